@@ -3,8 +3,28 @@
   Ops the specification does not define are answered `n/a` (skipped by the comparison).
 -/
 import Rl2tp.Driver.Ops
+import Rl2tp.Spec.Hide
 namespace Rl2tp.Driver
+open Rl2tp.Text
 
-def specAnswer (_line : String) : String := "n/a"
+/-- `hide` through `Spec.Hide.hiddenValue` (own MD5): non-hidden argument that fits; else the model's
+    trivial branches are not the specification's business -/
+def specRun (f : List String) : Option String :=
+  match f with
+  | ["hide", a, s, rv, lp, ap] => do
+    let a ← parseAvp a
+    let ap ← unhex ap
+    if ap.length ≠ 16 then none
+    if a.isHidden then some "n/a" else
+    if 6 + a.value.length > 1023 then some "panic" else
+    let v := Spec.Hide.hiddenValue Spec.Md5.md5 a.attr (← unhex s) (← b4? rv) a.value (← unhex lp) ap
+    some (renderAvp (.hidden a.attr v))
+  | ["md5", b] => do some (hex (Spec.Md5.md5 (← unhex b)))
+  | _ => some "n/a"
+
+def specAnswer (line : String) : String :=
+  match specRun (line.splitOn " ") with
+  | some s => s
+  | none => "bad-op"
 
 end Rl2tp.Driver
